@@ -25,6 +25,8 @@ class Session:
         self.client_frames: list[dict[str, Any]] = []   # every frame the client sent on this connection, judged
         self.sent_wrappers: list[bytes] = []             # genuine wrappers sent to the client (for replays)
         self.closed = False
+        self.session_response_raw: bytes | None = None
+        self.replayed = False        # this connection is served by the cross-session replay attacker, not the gateway
 
 
 class SecureGateway(SimGateway):
@@ -43,6 +45,7 @@ class SecureGateway(SimGateway):
         self.violations: list[tuple[str, str, str]] = []   # (clause, sig, detail) observed on the wire
         self.auth_mac_checked = 0
         self.wrappers_checked = 0
+        self.replay: list[bytes] | None = None     # recorded server-to-client frames a replay attacker serves
 
     # -- transport
     def on_accept(self, conn):
@@ -73,6 +76,18 @@ class SecureGateway(SimGateway):
     def _secure_rx(self, conn, fr: bytes):
         s = self.sessions[conn.cid]
         svc = struct.unpack(">H", fr[2:4])[0]
+        if self.replay is not None and (s.replayed or not s.client_frames):
+            # attacker without any key: answers a new connection with the recorded server-to-client bytes of an
+            # earlier session (SessionResponse first, the recorded wrappers once the client goes on with the handshake)
+            s.replayed = True
+            s.client_frames.append({"svc": svc, "raw": fr, "t": self.loop.time()})
+            if svc == W.SESSION_REQ:
+                conn.send_to_client(self.replay[0])
+            elif not getattr(s, "replay_dumped", False):
+                s.replay_dumped = True
+                for w in self.replay[1:]:
+                    conn.send_to_client(w)
+            return
         first = not s.client_frames
         rec = {"svc": svc, "raw": fr, "t": self.loop.time()}
         s.client_frames.append(rec)
@@ -91,7 +106,8 @@ class SecureGateway(SimGateway):
             mac = C.session_response_mac(self.dev_key, s.sid, s.client_pub, s.server_pub)
             if self.bad_dev_mac:
                 mac = bytes((mac[0] ^ 1,)) + mac[1:]
-            conn.send_to_client(W.frame(W.SESSION_RES, struct.pack(">H", s.sid) + pub + mac))
+            s.session_response_raw = W.frame(W.SESSION_RES, struct.pack(">H", s.sid) + pub + mac)
+            conn.send_to_client(s.session_response_raw)
             return
         if svc != W.SECURE_WRAPPER:
             self.violations.append(("C29.never-plain", f"plain-frame-sent:{W.SVC_NAMES.get(svc, hex(svc))}",
